@@ -853,7 +853,7 @@ def doubles(ctx, K, RecurrencePlot, rng, nprng, quick):
             fin = [[float(x) for x in E[:, l] if np.isfinite(x)] for l in range(dim)]
             overflows = any(c and float(max(c)) - float(min(c)) == np.inf for c in fin)
             ctx.count("doubles:a-finite-difference-overflows" if overflows else "doubles:overflow-kind-without-overflow")
-        if np.isfinite(E).all() and np.isfinite(eps) and not overflows:
+        if np.isfinite(E).all() and np.isfinite(eps):   # overflow included (binary64_overflow_subset_exact)
             # how often does binary64 rounding of |a - b| decide a cell differently from exact
             # arithmetic (theorem round_subset: only ever by dropping a recurrence)
             Rq = sup_matrix(E.tolist(), eps)
